@@ -133,13 +133,14 @@ theorem T_C16_trait (v : Variant) (attr : Toks) (t : TraitItem) (out : Out)
   simp only [traitImplBlock, zipAll_map_right]
   rw [hf, zipAll_map_right]
   -- both lists are the trait's methods: a diagonal zip
-  have hids : ∀ f ∈ t.members.filterMap (fun mm => match mm with | .fn f => some f | _ => none),
+  have hids : ∀ f ∈ t.members.filterMap TraitMember.fn?,
       identOk f.sig.ident = true := by
     intro f hf'
     obtain ⟨mm, hmm, hsome⟩ := List.mem_filterMap.mp hf'
     have := List.all_eq_true.mp (by simpa only [Item.identsOk] using hid) mm hmm
-    cases mm <;> simp_all
-  generalize t.members.filterMap (fun mm => match mm with | .fn f => some f | _ => none) = fs at hids
+    cases mm <;> simp_all [TraitMember.fn?]
+  simp only [TraitItem.fns]
+  generalize t.members.filterMap TraitMember.fn? = fs at hids
   induction fs with
   | nil => rfl
   | cons f rest ih =>
@@ -217,9 +218,12 @@ theorem T_C16_impl (v : Variant) (attr : Toks) (m : ImplItemIn) (out : Out)
   have hnd : (v.apply a.opts).noDepsValue = false := by
     rw [apply_noDepsValue]; simp [Opts.noDepsValue, implAttr_noDeps h1]
   have hids : ∀ f ∈ items.filterMap BodyItem.fn?, identOk f.sig.ident = true := by
-    have hid' : (items.filterMap BodyItem.fn?).all (fun f => identOk f.sig.ident) = true := by
+    have hid' : (items.filterMap BodyItem.fn?).all (fun f => identOk f.sig.ident && unraw f.sig.ident != "__impl") = true := by
       simpa only [Item.identsOk, Item.sourceFns, h0] using hid
-    exact fun f hf => List.all_eq_true.mp hid' f hf
+    intro f hf
+    have := List.all_eq_true.mp hid' f hf
+    simp only [Bool.and_eq_true] at this
+    exact this.1
   simp only [P_C16, Out.view, View.items, Out.inside, Out.after, mainImpl?, implsOf, List.nil_append,
     List.getLast?_singleton, Item.sourceFns, h0, effectiveOpts, h1, optsNoDeps, Item.mode, hnd, Bool.true_and]
   rw [him]
